@@ -127,6 +127,26 @@ struct Driver {
                 snapshot(a[1]);
                 break;
             }
+#if defined(VF_SERIALIZE)
+            case 'W': {   // save a[1] to a text ('t') or binary ('b') archive and load it into a fresh a[2]
+                snprintf(line, sizeof line, "CALL saveload %c %c %c", a[1], a[2], a[0]); tr().line(line);
+                std::stringstream ss(std::ios::in | std::ios::out | std::ios::binary);
+                {
+                    const Root& src = at(a[1]);
+                    if (a[0] == 't') { boost::archive::text_oarchive oa(ss); oa << src; }
+                    else { boost::archive::binary_oarchive oa(ss); oa << src; }
+                }
+                fresh(a[2]);
+                {
+                    if (a[0] == 't') { boost::archive::text_iarchive ia(ss); ia >> at(a[2]); }
+                    else { boost::archive::binary_iarchive ia(ss); ia >> at(a[2]); }
+                }
+                snprintf(line, sizeof line, "RET %zu", ss.str().size()); tr().line(line);
+                snapshot(a[1]);
+                snapshot(a[2]);
+                break;
+            }
+#endif
 #if defined(VF_FAM_MP11)
             case 'V': {   // move-construct a[1] from a[0]
                 snprintf(line, sizeof line, "CALL move %c %c", a[0], a[1]); tr().line(line);
